@@ -28,7 +28,7 @@ static int pdec_run(const pktlist_t *pk,pdec_t *o,int keep){
   vorbis_block_init(&vd,&vb);
   if(keep&1){ o->pcm=calloc(o->ch,sizeof(float*)); }
   for(int i=3;i<pk->n;i++){
-    pkt_to_ogg(&pk->v[i],&op);
+    pkt_to_ogg(&pk->v[i],&op); if((keep&4) && i!=pk->n-1) op.granulepos=-1;   /* as if all audio sat on one page: only the final packet carries a granule position */
     int r=vorbis_synthesis(&vb,&op);
     if(r==0){
       long used=oggpack_bits(&vb.opb), have=8*op.bytes;
@@ -227,7 +227,7 @@ static void case_c06(const drvargs_t *a,long id,const char *envpath){
     encres_t er; int ret=enc_run(&c,&er);
     if(ret){ res_count("setups_refused",1); encres_free(&er); continue; }
     pdec_t pd;
-    if(pdec_run(&er.pk,&pd,(id&1)?3:1)||pd.syn_err){ res_viol("C05","decode-rejected","%s",desc); pdec_free(&pd); encres_free(&er); continue; }
+    if(pdec_run(&er.pk,&pd,((id&1)?3:1)|((id%3==1)?4:0))||pd.syn_err){ res_viol("C05","decode-rejected","%s",desc); pdec_free(&pd); encres_free(&er); continue; }
     res_eval(1); res_count("encodes",1);
     if(pd.n!=N){ res_viol("C04","packet-decode-count","decoded %ld, N=%ld: %s",pd.n,N,desc); pdec_free(&pd); encres_free(&er); continue; }
     int ok=1;
@@ -241,6 +241,10 @@ static void case_c06(const drvargs_t *a,long id,const char *envpath){
     }
     if(nonfinite){ res_viol("C06","non-finite-output","%ld non-finite samples: %s",nonfinite,desc); ok=0; }
     double snr= 10*log10((ssum+1e-30)/(esum+1e-30));
+    { /* the end of the stream in particular: the last block is the one the end-of-stream trimming touches */
+      long tl= N/3<2048? N/3:2048; double te=0,ts=0; for(int ch=0;ch<c.channels;ch++) for(long i=N-tl;i<N;i++){ float o=pd.pcm[ch][i], x=in[ch][i]; if(!isfinite(o)) continue; te+=((double)o-x)*((double)o-x); ts+=(double)x*x; }
+      if(tl>256 && ts>1e-4*tl*c.channels){ double tsnr=10*log10((ts+1e-30)/(te+1e-30)); res_metric("tail_snr_minus_overall_snr",tsnr-snr); res_count("stream_tails_judged",1);
+        if(snr>=20.0 && tsnr<3.0){ res_viol("C06","tail-not-aligned","the last %ld samples reconstruct at %.1f dB while the whole stream does at %.1f dB%s: %s",tl,tsnr,snr,(id%3==1)?" (granule position on the final packet only)":"",desc); ok=0; } } }
     double pk= pin>0? pout/pin : 0;
     { char pkk[40]; snprintf(pkk,sizeof pkk,"peak_ratio|%s",sig_name(c.sig)); res_metric(pkk,pk); }
     if(pin>0 && pk>6.0){ res_viol("C06","peak-exceeds-6x-input","peak out %.3f in %.3f: %s",pout,pin,desc); ok=0; }
